@@ -421,6 +421,8 @@ def prodK : K where
 /-- which field(s) of which record each partial update is meant to touch (in the order the code seeks to them),
 and the record-size constant it must use as stride (`none`: single-record file). -/
 def intended : List (String × String × Option String × List String) := [
+  ("cmbbs.PasswdQuery", "UserecRaw", some "USEREC_RAW_SZ", []),
+  ("cmbbs.PasswdUpdate", "UserecRaw", some "USEREC_RAW_SZ", []),
   ("cmbbs.PasswdQueryPasswd", "UserecRaw", some "USEREC_RAW_SZ", ["PasswdHash"]),
   ("cmbbs.PasswdQueryUserLevel", "UserecRaw", some "USEREC_RAW_SZ", ["UserLevel"]),
   ("cmbbs.PasswdUpdatePasswd", "UserecRaw", some "USEREC_RAW_SZ", ["PasswdHash"]),
